@@ -523,42 +523,49 @@ def _wiring(chk):
     chk.obl("jacobian_fn(p) == STM(x_full, t_event)[ix_(residual, control)] of the same state and event time",
             "K2 wiring", [OP + ":_SingleShootingOrbitOperators.build_jacobian_fn"], "B3 sympy normal form", th_jacobian)
 
-    def th_results():
+    def th_results(ctrl=(2, 4)):
+      def run_():
         with exact() as alg:
-            red = Reducer(alg)
-            base = sp.symbols("b0:6", real=True)
-            xc = sp.symbols("c0:2", real=True)
-            th = sp.Symbol("t_half", real=True)
-            calls = {}
+              red = Reducer(alg)
+              base = sp.symbols("b0:6", real=True)
+              xc = sp.symbols("c0:%d" % len(ctrl), real=True)
+              th = sp.Symbol("t_half", real=True)
+              calls = {}
 
-            def event_func(dynsys, x0, forward):
-                calls["x0"] = vals(x0)
-                calls["forward"] = forward
-                return X(th), xarr(sp.symbols("e0:6", real=True))
-            dom = _Obj(initial_state=xarr(base), dynamics=_Obj(dynsys="DYN"))
-            problem = _Obj(control_indices=(2, 4), domain_obj=dom, event_func=event_func, forward=1)
-            outputs = _Obj(x_corrected=xarr(xc), iterations=3, residual_norm=X(sp.Symbol("rn", real=True)))
-            I = itf._OrbitCorrectionInterface
-            self = _Obj()
-            self._reconstruct_full_state = I._reconstruct_full_state
-            self._half_period = types.MethodType(I._half_period, self)
-            self.to_domain = types.MethodType(I.to_domain, self)
-            res = I.to_results(self, outputs, problem=problem)
-            want = list(base)
-            want[2], want[4] = xc[0], xc[1]
-            for a, b in zip(vals(res.x_corrected), want):
-                require_identity(red, a, b, key_prefix="x_full")
-            for a, b in zip(calls["x0"], want):
-                require_identity(red, a, b, key_prefix="half-period-event-not-from-corrected-state")
-            require_identity(red, val(res.half_period), th, key_prefix="half_period")
-            require_identity(red, val(res.residual_norm), sp.Symbol("rn", real=True), key_prefix="residual_norm")
-            if res.converged is not True:
-                raise Refuted("converged-flag", "to_results did not set converged=True")
+              def event_func(dynsys, x0, forward):
+                  calls["x0"] = vals(x0)
+                  calls["forward"] = forward
+                  return X(th), xarr(sp.symbols("e0:6", real=True))
+              dom = _Obj(initial_state=xarr(base), dynamics=_Obj(dynsys="DYN"))
+              problem = _Obj(control_indices=ctrl, domain_obj=dom, event_func=event_func, forward=1)
+              outputs = _Obj(x_corrected=xarr(xc), iterations=3, residual_norm=X(sp.Symbol("rn", real=True)))
+              I = itf._OrbitCorrectionInterface
+              self = _Obj()
+              self._reconstruct_full_state = I._reconstruct_full_state
+              self._half_period = types.MethodType(I._half_period, self)
+              self.to_domain = types.MethodType(I.to_domain, self)
+              res = I.to_results(self, outputs, problem=problem)
+              want = list(base)
+              for pos, idx in enumerate(ctrl):
+                  want[idx] = xc[pos]      # parameter number pos belongs to state component ctrl[pos], in the LISTED order
+              for a, b in zip(vals(res.x_corrected), want):
+                  require_identity(red, a, b, key_prefix="x_full")
+              for a, b in zip(calls["x0"], want):
+                  require_identity(red, a, b, key_prefix="half-period-event-not-from-corrected-state")
+              require_identity(red, val(res.half_period), th, key_prefix="half_period")
+              require_identity(red, val(res.residual_norm), sp.Symbol("rn", real=True), key_prefix="residual_norm")
+              if res.converged is not True:
+                  raise Refuted("converged-flag", "to_results did not set converged=True")
+      return run_
     chk.obl("to_results: x_full = template with corrected entries; half_period from the corrected state's event",
             "K2 wiring", [IF + ":_OrbitCorrectionInterface.to_results", IF + ":_OrbitCorrectionInterface.to_domain",
                           IF + ":_OrbitCorrectionInterfaceBase._half_period",
                           IF + ":_OrbitCorrectionInterfaceBase._reconstruct_full_state"],
-            "B3 sympy normal form", th_results)
+            "B3 sympy normal form", th_results())
+    chk.obl("to_results with control indices listed in NON-ascending order (4, 0, 2): parameter k goes to state component "
+            "control_indices[k]; half_period from that state", "K2 wiring",
+            [IF + ":_OrbitCorrectionInterface.to_results", IF + ":_OrbitCorrectionInterfaceBase._reconstruct_full_state"],
+            "B3 sympy normal form", th_results((4, 0, 2)))
 
     def th_period():
         with exact() as alg:
